@@ -231,6 +231,39 @@ func (p *c20) Run(tier string, seed int64, idx int) core.CaseResult {
 			res.Fail("C20/filtered-schema-differs-from-pruned-schema/"+fl.name, in, firstDiff(want, got)+"\n(- pruned unfiltered schema, + filtered compilation)")
 		}
 	}
+	// ---- one set of parsed trees compiled several times.  Where that works at all (two unfiltered compilations of
+	// the same trees give the schema of a fresh parse), a filter used in one compilation says nothing about the next.
+	if idx%3 == 0 {
+		if trees, perr := parseTexts(texts); perr == "" {
+			u1 := compileTrees(trees, feats, nil)
+			u2 := compileTrees(trees, feats, nil)
+			if u1.Accepted() && u2.Accepted() && u1.Dump == base.Dump && u2.Dump == base.Dump {
+				res.Ev("sets_whose_trees_compile_twice_alike", 1)
+				if t2, perr2 := parseTexts(texts); perr2 == "" {
+					seq := []int{1 + idx/3%(len(c20Filters)-1), 1 + (idx/3+5)%(len(c20Filters)-1), 0, 1 + (idx/3+2)%(len(c20Filters)-1)}
+					prev := ""
+					for _, fi := range seq {
+						fl := c20Filters[fi]
+						got := compileTrees(t2, feats, fl.f)
+						fresh := compileTexts(texts, nil, feats, fl.f, true)
+						res.Ev("compilations_of_trees_compiled_before", 1)
+						if got.Panic != "" {
+							res.Fail("C20/panic/"+fl.name+"/"+core.TopRepoFrame(got.Stack), input, got.Panic)
+							break
+						}
+						if got.Accepted() != fresh.Accepted() || got.Dump != fresh.Dump {
+							res.Fail("C20/filter-of-an-earlier-compilation-shows-in-a-later-one", "filter="+fl.name+" after "+prev+"\n"+input,
+								fmt.Sprintf("the same parse trees, compiled before with the filters %s: verdict %s %s\n%s\n(- trees parsed afresh, + trees compiled before)", prev, got.Verdict(), got.Err, firstDiff(fresh.Dump, got.Dump)))
+							break
+						}
+						prev += fl.name + " "
+					}
+				}
+			} else {
+				res.Ev("sets_whose_trees_do_not_compile_twice_alike", 1)
+			}
+		}
+	}
 	if idx%41 == 0 {
 		res.Sample = map[string]interface{}{"modules": len(ms.Mods), "dump_nodes": base.DumpRoot.Count(), "filters": len(c20Filters)}
 	}
